@@ -3,6 +3,7 @@ package h
 import (
 	"errors"
 	"strings"
+	"time"
 
 	z "github.com/Oudwins/zog"
 	"github.com/Oudwins/zog/parsers/zjson"
@@ -21,7 +22,7 @@ func init() {
 
 func C01_Jobs() []string {
 	return append(shapeJobs(), "hist/two-dest-types/parse", "hist/two-dest-types/validate", "hist/catch-then-ptr", "hist/shared-leaf",
-		"hist/preprocess", "hist/str-not")
+		"hist/preprocess", "hist/str-not", "hist/blank-required", "hist/merge-tests")
 }
 func C02_Jobs() []string {
 	out := shapeJobs()
@@ -31,7 +32,7 @@ func C02_Jobs() []string {
 		out = append(out, "afterpanic/"+j)
 	}
 	out = append(out, "extra/preprocess-slice", "extra/preprocess-struct/parse", "extra/preprocess-struct/validate", "extra/own-coercer", "extra/multi-issue-test/parse", "extra/multi-issue-test/validate",
-		"extra/blank-strings", "extra/decode-failure")
+		"extra/blank-strings", "extra/decode-failure", "extra/own-tests-all-reported/parse", "extra/own-tests-all-reported/validate", "extra/time-eq-zones")
 	return out
 }
 func C01_Covers() []string { return []string{"no-issues", "issues"} }
@@ -138,6 +139,54 @@ func c01History(kind, mode string) {
 		}
 		if errs == nil {
 			v.Cover("no-issues")
+		} else {
+			v.Cover("issues")
+		}
+	case "blank-required":
+		// Required / NotNil nodes had a present value: a string of Unicode white space is not one
+		// (ALL byte strings of <=2 bytes, 3 in thorough; struct field, slice item, behind a pointer)
+		s := v.String("s", wsMax())
+		n := 0
+		for n < len(s) {
+			n++
+		}
+		blank := refBlank(s, n)
+		var d struct {
+			A string
+			P *string
+			L []string
+		}
+		errs := z.Struct(z.Schema{"a": z.String().Required(), "p": z.Ptr(z.String()).NotNil(), "l": z.Slice(z.String().Required())}).
+			Parse(map[string]any{"a": s, "p": s, "l": []any{"x", s}}, &d)
+		if errs == nil {
+			v.Cover("no-issues")
+			v.Assert(!blank, "C01:constraint-not-enforced")
+		} else {
+			v.Cover("issues")
+		}
+	case "merge-tests":
+		// struct-level tests of every operand of a Merge are constraints of the merged schema
+		x, y := v.Int("x"), v.Int("y")
+		tst := func(code string, bad int) z.Test {
+			return z.TestFunc(code, func(p any, c z.Ctx) bool { return p.(*struct{ A, B, C, D int }).A != bad })
+		}
+		b1, b2, b3, b4 := v.Int("b1"), v.Int("b2"), v.Int("b3"), v.Int("b4")
+		s1 := z.Struct(z.Schema{"a": z.Int()}).Test(tst("t1", b1))
+		s2 := z.Struct(z.Schema{"b": z.Int()}).Test(tst("t2", b2))
+		s3 := z.Struct(z.Schema{"c": z.Int()}).Test(tst("t3", b3))
+		s4 := z.Struct(z.Schema{"d": z.Int()}).Test(tst("t4", b4))
+		m := s1.Merge(s2, s3, s4)
+		var d struct{ A, B, C, D int }
+		var errs z.ZogIssueMap
+		if mode == "validate" || v.Choice("validate", 2) == 1 {
+			d.A, d.B = x, y
+			errs = m.Validate(&d)
+		} else {
+			errs = m.Parse(map[string]any{"a": x, "b": y}, &d)
+		}
+		if errs == nil {
+			v.Cover("no-issues")
+			v.Assert(d.A == x && x != b1 && x != b2 && x != b3 && x != b4, "C01:struct-test-not-enforced")
 		} else {
 			v.Cover("issues")
 		}
@@ -275,6 +324,51 @@ func c02Extra(kind, mode string) {
 			v.Assert(errs == nil, "C02:nil-iff-no-violation")
 			v.Assert(d.A == s && d.P != nil && *d.P == s && len(d.L) == 1 && d.L[0] == s, "C02:issues-differ-from-violations")
 		}
+	case "own-tests-all-reported":
+		// every failing test a struct or a slice declares on ITSELF is reported, not only the first
+		type T struct {
+			A int
+			L []int
+		}
+		f1, f2 := v.Bool("f1"), v.Bool("f2")
+		st := z.Struct(z.Schema{"a": z.Int(), "l": z.Slice(z.Int()).Min(3).Max(0).Contains(99)}).
+			TestFunc(func(p any, c z.Ctx) bool { return !f1 }, z.IssueCode("first")).
+			TestFunc(func(p any, c z.Ctx) bool { return !f2 }, z.IssueCode("second")).
+			TestFunc(func(p any, c z.Ctx) bool { return !f1 }, z.IssueCode("third"))
+		var d T
+		var errs z.ZogIssueMap
+		if mode == "validate" {
+			d = T{A: 1, L: []int{1}}
+			errs = st.Validate(&d)
+		} else {
+			errs = st.Parse(map[string]any{"a": 1, "l": []any{1}}, &d)
+		}
+		v.Assert(len(errs["$root"]) == 2*v.B2I(f1)+v.B2I(f2), "C02:issues-differ-from-violations")
+		v.Assert(len(errs["l"]) == 3 && errs["l"][0].Code == "min" && errs["l"][1].Code == "max" && errs["l"][2].Code == "contained", "C02:issues-differ-from-violations")
+		var top []int
+		var le z.ZogIssueMap
+		if mode == "validate" {
+			top = []int{1}
+			le = z.Slice(z.Int()).Min(3).Max(0).Validate(&top)
+		} else {
+			le = z.Slice(z.Int()).Min(3).Max(0).Parse([]any{1}, &top)
+		}
+		v.Assert(len(le["$root"]) == 2, "C02:issues-differ-from-violations")
+	case "time-eq-zones":
+		// a value that satisfies its node yields no issue: the same instant in another location
+		sec := v.Int64("sec")
+		v.Assume(sec > -(1<<40) && sec < 1<<40)
+		ref := time.Unix(sec, 0).UTC()
+		other := ref.In(time.FixedZone("X", 3600+1800))
+		var d time.Time
+		e1 := z.Time().EQ(ref).Parse(other, &d)
+		v.Assert(len(e1) == 0, "C02:nil-iff-no-violation")
+		d = other
+		e2 := z.Time().EQ(ref).Validate(&d)
+		v.Assert(len(e2) == 0, "C02:nil-iff-no-violation")
+		var ds struct{ At time.Time }
+		e3 := z.Struct(z.Schema{"at": z.Time().EQ(other)}).Parse(map[string]any{"at": sec}, &ds)
+		v.Assert(e3 == nil, "C02:nil-iff-no-violation")
 	case "decode-failure":
 		// an undecodable document is exactly one issue at the root, whatever the root node declares
 		doc := []string{`{`, `[1]`, `"s"`, `null`, ``, ` `, `{"a":}`}[v.Choice("doc", 7)]
